@@ -111,6 +111,13 @@ def generate(thorough):
             stmts = [S[i] for i in combo]
             k += 1
             progs.append(("cn%d" % k, program_text(stmts), {"stmts": stmts}))
+    # exactly-one over n declared booleans (every one has its own flaw, so none stays undecided): n = 2..9 covers the pairwise
+    # encoding (n < 4) and complete / incomplete grids of the product encoding
+    for nq in range(2, 10):
+        qs = [("id", "q%d" % i) for i in range(nq)]
+        stmts = [("bool:^n-vars", ("assert", ("nary", "^", qs)))]
+        k += 1
+        progs.append(("cn%d" % k, "real x; real y; bool p; " + " ".join("bool q%d;" % i for i in range(nq)) + " " + render_stmt(stmts[0][1]), {"stmts": stmts, "always_sat": True}))
     # boxes: both variables bounded from both sides, a strict difference between them, and one disjunction whose two
     # disjuncts are ORDERED pairs of bound statements (with and without costs): row-bound propagation over a row with
     # coefficients of both signs happens below root level, with reasons that conflict analysis must keep
@@ -310,7 +317,7 @@ def judge(prog, res):
     if v == "reader-error":
         return ("C16:valid-program-rejected:" + kinds, "the reader rejected the program: " + res.get("what", ""))
     if v in ("unsolvable", "inconsistent"):
-        if has_model(m["stmts"]):
+        if m.get("always_sat") or has_model(m["stmts"]):
             return ("C02:spurious-%s:%s" % (v, kinds), "reported %s, but the statements have a model (truth-assignment enumeration x Fourier-Motzkin)" % v)
         return None
     env = env_of(res["solution"].get("exprs", []))
